@@ -274,8 +274,13 @@ func run(c *lib.Ctx) error {
 			c.Sample(gc)
 		}
 	}
-	if int64(nGen) != r.Distinct {
-		return lib.Infra("TLC reported %d cases, received %d", r.Distinct, nGen)
+	srcs := map[string]bool{}
+	for k := range seen {
+		srcs[k[:strings.IndexByte(k, '|')]] = true
+	}
+	// TLC's distinct states = one state per source (ph = 0) + one per case (ph = 1)
+	if int64(nGen+len(srcs)) != r.Distinct {
+		return lib.Infra("TLC reported %d states, received %d cases over %d sources", r.Distinct, nGen, len(srcs))
 	}
 	c.Logf("generated cases: %d (%d with Unspecified end)", nGen, nUnspec)
 	c.Set("generated_cases", nGen)
@@ -326,7 +331,7 @@ func judge(c *lib.Ctx, dir string, obs []obsCase) error {
 
 // ---- V (a): random multi-line sources, random byte ranges (also inside multi-byte characters)
 func randomContexts(c *lib.Ctx) []obsCase {
-	n := c.Pick(4000, 40000)
+	n := c.Pick(3000, 40000)
 	alphabet := []string{"a", "b", " ", "é", "你", "😀", "\n", "\n", "\n", "\r", "\t"}
 	var out []obsCase
 	for i := 0; i < n; i++ {
